@@ -412,6 +412,17 @@ func (s *c10Sys) stateKey(stored []c10Stored) string {
 		fmt.Fprintf(&sb, "M[%d|g%d|ng%d|a%d|p%v]", k, me.gen, s.nextGen[k], age, s.pending[k])
 	}
 	fmt.Fprintf(&sb, "S[%s|%s]", s.slotRet.slotKey(), s.slotOrig.slotKey())
+	// the message the upstream produced last may still be referenced by the plugin (a store that
+	// has not happened yet, a background writer): what has been done to it is part of the state.
+	// Without this all "mutate the original" successors of a miss collapse into the harmless first one.
+	for i := len(s.handed) - 1; i >= 0; i-- {
+		if h := s.handed[i]; h.kind == "upstream" || h.kind == "refresh" || h.kind == "probe" {
+			pm := *h.msg
+			pm.Id = 0
+			fmt.Fprintf(&sb, "U[%x]", c10Hash(string(c10Pack(&pm))))
+			break
+		}
+	}
 	return sb.String()
 }
 
@@ -575,10 +586,9 @@ func c10Exec(path []string, op string, verbose bool) c10Result {
 var c10LastSys *c10Sys
 
 func c10EnabledOps(r c10Result) []string {
-	ops := []string{"q1", "q2", "qd1", "qe1", "tick", "expire"}
-	if r.pending {
-		ops = append(ops, "drain")
-	}
+	// drain: every runnable background goroutine of the plugin runs until it blocks (a pending
+	// lazy refresh, the cleaner, whatever else a change may add); a no-op when there is none
+	ops := []string{"q1", "q2", "qd1", "qe1", "tick", "expire", "drain"}
 	if r.hasRet {
 		for _, m := range c10Muts {
 			if !m.NeedOpt {
